@@ -816,7 +816,7 @@ class _Interp:
         vobj, sel = self.variants(op["vars"], m.nv)
         val, W, src = self.values(op["val"], len(pos), pos, len(sel), i)
         kind = op["dates"]["k"]
-        res = _Res("write", f"write:{kind}:{op['val']['k'] if src is None else 'series'}")
+        res = _Res("write")
         res.inputs = (src,) if src is not None and src != i else ()
         m2 = m.copy()
         sp = m.span()
@@ -881,7 +881,7 @@ class _Interp:
         i = self.idx(op["x"])
         x, m = self.pool[i]
         by, form = op["by"], op["form"]
-        res = _Res(f"shift:{by if isinstance(by, str) else 'int'}")
+        res = _Res("shift", f"shift:{by if isinstance(by, str) else 'int'}")
         if isinstance(by, str):
             if self.f == 0:
                 return None
